@@ -231,7 +231,15 @@ def run_measure(case):
             S.problem("is_consonant / is_dissonant / is_perfect_consonant(%r, %r, %r)" % (a, b, opt),
                       [I.consonant(m, bool(opt)), not I.consonant(m, not bool(opt)), I.perfect_consonant(m, bool(opt))], [c, d, pc], detail={"measure": m})
             break
-    S.trans(32)
+    # the option by name
+    for opt in (True, False):
+        got = [_intervals_module.is_consonant(a, b, include_fourths=opt), _intervals_module.is_dissonant(a, b, include_fourths=opt),
+               _intervals_module.is_perfect_consonant(a, b, include_fourths=opt)]
+        want = [I.consonant(m, opt), not I.consonant(m, not opt), I.perfect_consonant(m, opt)]
+        if [bool(x) for x in got] != want:
+            S.problem("is_consonant / is_dissonant / is_perfect_consonant(%r, %r, include_fourths=%r)" % (a, b, opt), want, got, detail={"measure": m})
+            break
+    S.trans(38)
     S.count("pairs")
     S.outcome((m, got if isinstance(got, int) else repr(got), tuple(vec)))
     if a == "C#b" and len(b) == 3:
